@@ -186,6 +186,10 @@ def gen(seed, tier):
     for s1, s2 in (([2, 3], [3, 2]), ([6], [2, 3]), ([2, 3], [6]), ([2, 3, 2], [3, 2, 2]), ([4], [2, 2]), ([2, 2], [4]), ([3, 2], [2, 3]), ([2, 6], [3, 4]), ([1, 6], [6, 1]), ([2, 3], [3])):
         for op in ("zip", "gcd@i32", "lcm@i32", "broadcast"):
             out.append(f"{op} {arr(s1, [k + 1 for k in range(prod(s1))])} {arr(s2, [k + 2 for k in range(prod(s2))])}")
+    # names that are not a norm order: the words a float parser accepts among them (seeded change C09p)
+    for name in ("nan", "NaN", "-nan", "infinity", "Infinity", "+inf", "+infinity", "-infinity", "in", "i", "fr", "frob", "two", "1.5", "", "nuc ", " inf", "inf ", "2.0", "1e0", "0x2"):
+        for a in ("a3:3,-4,12", "a2x2:1,2,3,4", "a1:5"):
+            out.append(f"mone@f64 s{hexs('norm')} {a} s{hexs(name)}")
     out.append("max a0: n")
     out.append("argmax a0: n z2")
     out.append("unpack_bits a2:6,255 n z-1 z0")
